@@ -87,11 +87,22 @@ impl Uf {
     fn fold(data: &[u8]) -> Vec<u8> {
         let mut h0: u8 = 0x5a;
         let mut h1: u8 = 0xc3;
-        let mut i = 0;
-        while i < data.len() {
-            h0 = h0.rotate_left(1) ^ data[i];
-            h1 = h1.wrapping_add(data[i]).rotate_left(3) ^ h0;
-            i += 1;
+        // two nested loops of at most 8 iterations each (inputs up to 64 bytes) so that a harness
+        // can run with unwind 9: the lengths reaching this point are not constant-folded and every
+        // loop is unrolled to the harness bound
+        assert!(data.len() <= 64);
+        let mut c = 0;
+        while c < 8 {
+            let mut j = 0;
+            while j < 8 {
+                let i = c * 8 + j;
+                if i < data.len() {
+                    h0 = h0.rotate_left(1) ^ data[i];
+                    h1 = h1.wrapping_add(data[i]).rotate_left(3) ^ h0;
+                }
+                j += 1;
+            }
+            c += 1;
         }
         let mut out = Vec::with_capacity(NH);
         out.push(h0);
